@@ -74,12 +74,16 @@ type session struct {
 	// rawLen gives the length of the raw data step (ReadSector).
 	rawLen func() int
 
-	sc        *script
-	noop      map[string]bool // faults that did not change the forwarded bytes
-	unknown   []string
-	corrupted bool // some host message was altered
+	sc         *script
+	noop       map[string]bool // faults that did not change the forwarded bytes
+	unknown    []string
+	corrupted  bool            // some host message was altered
+	void       map[string]bool // faults that were applied to a message the host sent and left its bytes unchanged
 	noWatchdog bool
-	extendAt   map[int]int // step -> offset at which Raw/extend garbage begins
+	// wireOK reports whether the request the client put on the wire is the normal form of the
+	// caller's arguments (nil: not checked).  Evaluated after the exchange, if a stream was dialed.
+	wireOK   func() bool
+	extendAt map[int]int // step -> offset at which Raw/extend garbage begins
 	// dataHook may replace the honest raw data of a raw step before field faults are applied.
 	dataHook func([]byte) []byte
 }
@@ -144,6 +148,23 @@ func (s *session) randomMutation(b []byte, f Fault) []byte {
 	return b
 }
 
+// wireRequest decodes the request the client actually sent (captured by the proxy) into obj.
+func (s *session) wireRequest(obj proto4.Object) bool {
+	r := bytes.NewReader(s.sc.request())
+	if _, err := proto4.ReadID(r); err != nil {
+		return false
+	}
+	return proto4.ReadRequest(r, obj) == nil
+}
+
+func (s *session) hasFault(msg, field, how string) bool {
+	for _, f := range s.c.Faults {
+		if f.Msg == msg && f.Field == field && f.How == how {
+			return true
+		}
+	}
+	return false
+}
 
 // handle is the script's per-message hook.
 func (s *session) handle(i int, in inMsg) (out outMsg) {
@@ -217,6 +238,7 @@ func (s *session) handle(i int, in inMsg) (out outMsg) {
 		}
 		if bytes.Equal(before, cur) && !(f.Field == "All") {
 			s.noop[f.String()] = true
+			s.void[f.String()] = true
 		}
 	}
 	if honest == nil || !bytes.Equal(honest, cur) {
@@ -240,19 +262,25 @@ type Outcome struct {
 	// Dialed: the client opened a stream.  A client that refuses a request locally (an error
 	// without any exchange) never meets the host, whatever the fault plan says.
 	Dialed bool `json:"dialed"`
+	// Wire: the request on the wire was the normal form of the arguments (true if nothing was sent).
+	Wire bool `json:"wire"`
 	// Noop: faults that did not change the bytes on the wire, or sit on a message the renter
 	// never read a byte of (it had returned already)
-	Noop      []string        `json:"noop,omitempty"`
-	Corrupted bool            `json:"corrupted"`
-	HostErrs  []string        `json:"hostErrs,omitempty"`
-	Unknown   []string        `json:"unknown,omitempty"`
-	Millis    float64         `json:"ms"`
+	Noop []string `json:"noop,omitempty"`
+	// Void: the subset of Noop that WAS applied to a delivered message without changing a byte
+	// (a catalogue entry the harness failed to make effective -- never the client's doing)
+	Void      []string `json:"void,omitempty"`
+	Corrupted bool     `json:"corrupted"`
+	HostErrs  []string `json:"hostErrs,omitempty"`
+	Unknown   []string `json:"unknown,omitempty"`
+	Millis    float64  `json:"ms"`
 }
 
 // run executes the exchange through the proxy and evaluates the outcome.
 func (s *session) run() Outcome {
 	e := s.e
 	s.noop = map[string]bool{}
+	s.void = map[string]bool{}
 	s.extendAt = map[int]int{}
 	s.sc = &script{steps: s.steps, handle: s.handle, rawLen: s.rawLen}
 	if !s.noWatchdog {
@@ -290,6 +318,17 @@ func (s *session) run() Outcome {
 	}()
 	out.Millis = float64(time.Since(t0).Microseconds()) / 1000
 	out.Dialed = e.net.Streams() > streams
+	out.Wire = true
+	if out.Dialed && s.wireOK != nil {
+		func() {
+			defer func() {
+				if recover() != nil {
+					out.Wire = false
+				}
+			}()
+			out.Wire = s.wireOK()
+		}()
+	}
 	e.waitServer()
 	s.sc.mu.Lock()
 	out.Delivered = s.sc.delivered
@@ -313,6 +352,10 @@ func (s *session) run() Outcome {
 		out.Noop = append(out.Noop, k)
 	}
 	sort.Strings(out.Noop)
+	for k := range s.void {
+		out.Void = append(out.Void, k)
+	}
+	sort.Strings(out.Void)
 	out.Corrupted = s.corrupted
 	out.Unknown = s.unknown
 	return out
